@@ -473,7 +473,11 @@ impl IntrinsicOp {
             | RightShiftAssignment | BitwiseAndAssignment | BitwiseOrAssignment
             | BitwiseXorAssignment => {
                 assert_eq!(param_types.len(), 2);
-                assert_eq!(param_types[0].0, param_types[1].0);
+                // The assigned value may lack the modifiers of the variable (volatile int v; v = 1;)
+                assert_eq!(
+                    module.type_registry.remove_modifier(param_types[0].0),
+                    module.type_registry.remove_modifier(param_types[1].0)
+                );
                 assert_eq!(param_types[0].1, ValueType::Lvalue);
                 param_types[0]
             }
